@@ -193,14 +193,14 @@ func (m *c10Mon) mon(c *ctx, w *hWorld, _ *worldSnap, sr *stepResult, hist []str
 	for _, mm := range sr.NewMsgs {
 		st.msgs[mm.ID] = &c10Msg{fn: mm.Fn, cont: mm.Fn != "ChangeOwnerAddress" && mm.Fn != "ClaimDeveloperRewards"}
 	}
-	m.checkData(c, w, sr, fail, f10)
+	m.checkData(c, w, sr, hist, fail, f10)
 	if isTransferFn(cs.Fn) {
 		m.checkParser(c, w, sr, hist, fail, f10)
 	}
 }
 
 // every non-empty data string parses into exactly the function name and arguments that were encoded
-func (m *c10Mon) checkData(c *ctx, w *hWorld, sr *stepResult, fail func(class, what string), f10 func(what string)) {
+func (m *c10Mon) checkData(c *ctx, w *hWorld, sr *stepResult, hist []string, fail func(class, what string), f10 func(what string)) {
 	cs, res := sr.Call, sr.Res
 	var exp *c10Exp
 	n := 0
@@ -254,7 +254,7 @@ func (m *c10Mon) checkData(c *ctx, w *hWorld, sr *stepResult, fail func(class, w
 			if exp.kind == "attached" && badFname(exp.fname) {
 				f10(what)
 			} else {
-				fail("emitted-data/"+exp.kind, what)
+				c.fail("monitor", "emitted-data/"+cs.Fn+"/"+exp.kind, what, stdReplay(sr, hist))
 			}
 		}
 	}
